@@ -15,7 +15,6 @@ CONSTANTS
  DevSelfFromFirst = FALSE
  KnownPairs = FALSE
  KnownTbl = FALSE
-INVARIANT Note
 INVARIANT Mark
 POSTCONDITION Accepted
 CHECK_DEADLOCK FALSE
